@@ -24,6 +24,7 @@ var families = map[string]func(r *rand.Rand, i int) *Program{
 	"tunewrap":  genTuneWrap,
 	"persist":   genPersist,
 	"crash":     genCrash,
+	"slowack":   genSlowAck,
 	"dist":      genDist,
 	"lenrace":   genLenRace,
 	"burst":     genBurst,
@@ -239,6 +240,33 @@ func genPersist(r *rand.Rand, i int) *Program {
 	p.Threads = [][]Op{append(a, Op{Op: "wuf"})}
 	if r.Intn(3) == 0 {
 		p.Threads = append(p.Threads, []Op{{Op: "pause"}, {Op: "yield"}, {Op: "resume"}})
+	}
+	if r.Intn(5) == 0 {
+		// the worker's context is cancelled while deliveries are under way
+		p.Ctx = true
+		p.Threads = append(p.Threads, []Op{{Op: "yield"}, {Op: "cancelctx"}})
+	}
+	return p
+}
+
+// slowack: the backend's Acknowledge blocks for a while (until "ackopen"); meanwhile the program comes to rest and is observed.
+// A job whose acknowledgement is in progress keeps its slot: nothing handed out may be waiting behind it.
+func genSlowAck(r *rand.Rand, i int) *Program {
+	g := &gen{r: r, k: 100}
+	p := &Program{Kind: "plain", Conc: 1 + r.Intn(3), Queues: []string{[]string{"pers", "persprio"}[r.Intn(2)]}, WFYields: r.Intn(2), AckHold: true}
+	for j := 0; j < r.Intn(3); j++ {
+		p.Preload = append(p.Preload, j)
+	}
+	t := g.adds(p.Conc + 1 + r.Intn(3))
+	t = append(t, Op{Op: "waitidle"}, Op{Op: "counts"})
+	if r.Intn(3) == 0 {
+		t = append(t, g.adds(1+r.Intn(2))...)
+		t = append(t, Op{Op: "waitidle"}, Op{Op: "counts"})
+	}
+	t = append(t, Op{Op: "ackopen"}, Op{Op: "wuf"})
+	p.Threads = [][]Op{t}
+	if r.Intn(3) == 0 {
+		p.Threads = append(p.Threads, []Op{{Op: "tune", N: 1 + r.Intn(3)}})
 	}
 	return p
 }
